@@ -2,6 +2,7 @@ import GbVerif.Props.C11
 import GbVerif.Props.C13
 import GbVerif.Props.C14
 import GbVerif.Props.C15
+import GbVerif.Props.C16
 import GbVerif.Props.C17
 import GbVerif.Props.C19
 import GbVerif.Props.C20
